@@ -327,6 +327,40 @@ def opByLine (j : Json) : Json :=
         ("scan_count", toJson x.st.scanCount), ("script_left", toJson x.st.ms.todo.length),
         ("underflow", toJson x.st.ms.underflow)])).toArray)]
 
+/-! op `rundirs`: a history of runs (group, start time) → the run directory each one gets, and
+    what `:last` / `:first` resolve to within each group after each run -/
+def tsOfJson (j : Json) : RunDir.TS :=
+  match j with
+  | .arr a =>
+    let g := fun (i : Nat) => (a[i]?.getD Json.null |>.getNat?).toOption.getD 0
+    ⟨g 0, g 1, g 2, g 3, g 4, g 5⟩
+  | _ => ⟨0, 0, 0, 0, 0, 0⟩
+
+def nameKey (n : List Char) : Nat :=
+  -- `strptime(x, ms if "." in x else s)`: the `.N` suffix is read as a fraction of a second and
+  -- does not change the order of names from different seconds
+  match RunDir.parse (n.takeWhile (· != '.')) with
+  | some t => t.key
+  | none => 0
+
+def opRunDirs (j : Json) : Json :=
+  let runs := (getArr j "runs").toList.map (fun r => ((getStr r "group").toList, tsOfJson ((r.getObjVal? "ts").toOption.getD Json.null)))
+  let prefixes := (getArr j "prefix").toList.map (fun x => match x with | .str s => s.toList | _ => [])
+  let step := fun (acc : List (List Char × List Char) × List Json) (r : List Char × RunDir.TS) =>
+    match RunDir.getRunDir (fun n => acc.1.contains (r.1, n)) r.2 1000 with
+    | none => (acc.1, acc.2 ++ [Json.null])
+    | some d =>
+      let all := acc.1 ++ [(r.1, d)]
+      let mine := (all.filter (fun x => x.1 == r.1)).map (·.2)
+      let res := prefixes.map (fun pre =>
+        let cands := (mine.filter (fun n => pre.isPrefixOf n)).map (fun n => (n, nameKey n))
+        Json.mkObj [("prefix", toJson (String.ofList pre)),
+          ("last", match RunDir.pickLast cands with | some x => toJson (String.ofList x.1) | none => Json.null),
+          ("first", match RunDir.pickFirst cands with | some x => toJson (String.ofList x.1) | none => Json.null)])
+      (all, acc.2 ++ [Json.mkObj [("dir", toJson (String.ofList d)), ("resolve", Json.arr res.toArray)]])
+  let out := runs.foldl step ([], [])
+  Json.mkObj [("runs", Json.arr out.2.toArray)]
+
 def handle (line : String) : Json :=
   match Json.parse line with
   | .error e => Json.mkObj [("error", toJson s!"bad-json: {e}")]
@@ -341,6 +375,7 @@ def handle (line : String) : Json :=
     else if op == "files" then opFiles j
     else if op == "paths" then opPaths j
     else if op == "byline" then opByLine j
+    else if op == "rundirs" then opRunDirs j
     else Json.mkObj [("error", toJson s!"bad-op: {op}")]
 
 partial def loop (h : IO.FS.Stream) (out : IO.FS.Stream) : IO Unit := do
